@@ -651,8 +651,8 @@ pub fn plan_for(id: &str, tier: &str) -> Option<Plan> {
             p.profile.min_clients = 3;
             p.profile.max_clients = 4;
             p.profile.max_ops = 80;
-            p.required = vec!["arg=foreign"];
-            p.rule = "two-run non-interference: each multi-client history is run in full, then the projection onto each client is re-run alone with foreign ids resolved to the same concrete uuids; responses compared one-to-one modulo the client's own ids; in the full run every other client's dump must be unchanged by each operation. Half of the histories are aligned (all bases nil, equal payload lengths).";
+            p.required = vec!["arg=foreign", "concurrent-clients|SqlitePerThread", "concurrent-clients|SocketSqlite", "overlapping-uploads-of-two-clients|workers=1"];
+            p.rule = "two-run non-interference: each multi-client history is run in full, then the projection onto each client is re-run alone with foreign ids resolved to the same concrete uuids; responses compared one-to-one modulo the client's own ids; in the full run every other client's dump must be unchanged by each operation. Half of the histories are aligned (all bases nil, equal payload lengths). Concurrent part: 3-5 clients, one thread each, act at the same time (one shared server on the in-memory backend / on one SQLite object, one server instance per thread on one SQLite directory, an HttpServer over sockets); every client's adaptive request sequence is then re-run alone on a fresh server of the same kind and the transcripts (ids named by first appearance) must be identical; two clients' uploads that overlap on one server worker must each be stored with their own bytes.";
         }
         "C10" => {
             p.property = "C10";
